@@ -3,7 +3,7 @@
 #   (1) the worktree's tracked diff is exactly out/patch.diff,
 #   (2) with the change: workspace builds, every existing test passes, the demonstration fails,
 #   (3) without the change: the demonstration passes.
-# usage: verify_seed.sh /tmp/seedwork/<ID-slot> <package> <demo-test-target> [extra cargo args for demo]
+# usage: verify_seed.sh /tmp/seedwork/<ID-slot> <package> <demo-test-target> [extra cargo args for the demo-only run]
 set -u
 D="$1"; PKG="$2"; DEMO="$3"; shift 3
 WT="$D/wt"; OUT="$D/out"
@@ -17,7 +17,7 @@ if ! diff -q <(grep -v '^index ' "$D/verify_tracked.diff") <(grep -v '^index ' "
   git checkout -- . && git apply "$OUT/patch.diff" || { echo "patch does not apply"; exit 2; }
 fi
 echo "== with change: full workspace suite"
-cargo test --workspace --no-fail-fast --offline "$@" >"$D/verify_with.log" 2>&1
+cargo test --workspace --no-fail-fast --offline >"$D/verify_with.log" 2>&1
 grep -E "^test result:|Running|^error: test failed|^error\[" "$D/verify_with.log" | awk '/Running/{t=$0} /test result: FAILED/{print "FAILED-TARGET: " t; print $0} /^error/{print}' | head -20
 PASS=$(grep -E "^test result: ok" "$D/verify_with.log" | awk '{s+=$4} END{print s+0}')
 FAILN=$(grep -E "^test result:" "$D/verify_with.log" | awk '{s+=$6} END{print s+0}')
